@@ -5,7 +5,7 @@
 From Coq Require Import ZArith List Bool Arith.
 Import ListNotations.
 From OvldV Require Import Model.Order Model.Ty Model.Codec Model.Resolve Spec.Dispatch
-  Proofs.ResolveCands Proofs.ResolveStatic Proofs.ResolveTotal Proofs.ResolveChain Gen.Leaf Proofs.LeafCand.
+  Proofs.ResolveCands Proofs.ResolveStatic Proofs.ResolveTotal Proofs.ResolveChain Proofs.RegIds Gen.Leaf Proofs.LeafCand.
 
 Definition Refl (sub : nat -> nat -> bool) := forall c, sub c c = true.
 Definition Antisym (sub : nat -> nat -> bool) := forall c d, sub c d = true -> sub d c = true -> c = d.
@@ -109,6 +109,18 @@ Print Assumptions C02_single_inheritance_exact.
 Theorem C02_ties_registered : forall ds, ties_wf (fold_left defs_register ds []) = true.
 Proof. intros ds. now apply registered_ties_wf. Qed.
 Print Assumptions C02_ties_registered.
+
+(* ... and both side conditions on the method list are facts about registration: for ANY sequence of definitions
+   with distinct identifiers (re-registrations of a signature included) the definitions dictionary keeps unique
+   (signature, tiebreak) keys and exactly the registered identifiers (C05_registrations_keep_all), so on
+   chain-applicable calls the outcome is the documented verdict with no hypothesis on tiebreaks or identifiers: *)
+Theorem C02_exact_registered : forall sub hasm chk fresh, Refl sub -> Antisym sub -> Trans sub -> forall ds k,
+  NoDup (map m_id ds) -> static_ms ds = true -> static_key k = true ->
+  chain_applicable sub (fold_left defs_register ds []) k = true ->
+  verdict_of (lookup sub hasm chk fresh (fold_left defs_register ds []) k)
+  = Some (spec_outcome sub (fold_left defs_register ds []) k).
+Proof. exact exact_registered. Qed.
+Print Assumptions C02_exact_registered.
 
 (* FULL STATEMENT (false of the faithful model, C02_exact_refuted): lookup = spec_outcome for every class DAG.
    Outside chain_applicable the theorems above leave exactly one way to differ: the rule says Ambiguous (no applicable method beats all
